@@ -537,6 +537,31 @@ func (fr *Frame) builtin(b *ssa.Builtin, cc *ssa.CallCommon, args []Val, resT ty
 					if sl.Low != nil {
 						lo = fr.get(sl.Low).T
 					}
+				} else if a, isAlloc := sl.X.(*ssa.Alloc); isAlloc && a.Comment != "makeslice" && arrayViewsUsedOnce(a) {
+					// dst is arr[lo:] of a local byte array: the array lives in a cell, which gets the new content
+					if sl.Low != nil {
+						lo = fr.get(sl.Low).T
+					}
+					p := fr.get(a)
+					cur := fc.load(st, p)
+					if cur.S == "Bytes" {
+						bs := "(b_s " + cur.T + ")"
+						src, _ := asString(args[1])
+						room := "(- (str.len " + bs + ") " + lo + ")"
+						n := fc.def("copyn", "Int", ite("(<= (str.len "+src+") "+room+")", "(str.len "+src+")", room))
+						nt := "(mkB false (str.++ (str.substr " + bs + " 0 " + lo + ") (str.substr " + src + " 0 " + n + ") (str.substr " + bs + " (+ " + lo + " " + n + ") (- (str.len " + bs + ") (+ " + lo + " " + n + ")))))"
+						cur.T = fc.B.Define("copied_"+a.Name(), "Bytes", nt)
+						fc.store(st, p, cur)
+						return Val{S: "Int", T: n, Typ: types.Typ[types.Int]}
+					}
+				}
+			}
+			if sl, ok := base.(*ssa.Slice); ok {
+				// make([]byte, N) with a constant N is `new [N]byte (makeslice)` + one slice of it: that slice value
+				// owns the array and is re-bound below. Any other view of a local array is outside the subset.
+				if a, isAlloc := sl.X.(*ssa.Alloc); isAlloc && !(a.Comment == "makeslice" && sl.Low == nil && sl.Max == nil) {
+					fc.unsupported("copy into a view of a local array that has other live views in %s", fr.fn.Name())
+					return fc.freshVal(types.Typ[types.Int], "copy")
 				}
 			}
 			if ownedSlice(base, 0) {
@@ -698,4 +723,30 @@ func appendMayClobber(v ssa.Value, depth int, seen map[ssa.Value]bool) bool {
 		}
 	}
 	return false
+}
+
+// arrayViewsUsedOnce: every slice view taken of the local array is used exactly once (handed straight to a call
+// or copy), so no view can observe a later write to the array through a stale value.
+func arrayViewsUsedOnce(a *ssa.Alloc) bool {
+	if a.Referrers() == nil {
+		return false
+	}
+	for _, r := range *a.Referrers() {
+		sl, ok := r.(*ssa.Slice)
+		if !ok {
+			continue
+		}
+		n := 0
+		if sl.Referrers() != nil {
+			for _, u := range *sl.Referrers() {
+				if _, dbg := u.(*ssa.DebugRef); !dbg {
+					n++
+				}
+			}
+		}
+		if n > 1 {
+			return false
+		}
+	}
+	return true
 }
